@@ -1,13 +1,13 @@
 /-
   Model of `antismash/common/hmm_rule_parser/cluster_prediction.py` (C03):
     apply_cluster_rules (with the per-cutoff cache; the circular flag is stored in the cache — D1 repaired —
-      and is the record length on every circular record — D25 repaired),
-    find_protoclusters (origin-spanning anchors first — connected as whole locations, D29 repaired —,
+      and is the record length on every circular record — D34 repaired),
+    find_protoclusters (origin-spanning anchors first — connected as whole locations, D38 repaired —,
       sorted sweep against the last core, first/last fix-up),
-    _extend_area_location (the whole-record split never cuts into the location — D26 repaired),
+    _extend_area_location (the whole-record split never cuts into the location — D35 repaired),
     apply_extenders, remove_redundant_protoclusters,
     merge_over_origin (merging to a fixpoint — D18 repaired; merged neighbourhoods through
-      _extend_area_location — D27 repaired; also applied before extenders and superiors — D28 repaired), strip_inferior_domains, build_results,
+      _extend_area_location — D36 repaired; also applied before extenders and superiors — D37 repaired), strip_inferior_domains, build_results,
     detect_protoclusters_and_signatures (dynamic-profile hits are an input).
   One Lean function per Python function, same branch order, same `<` / `<=`, same iteration sources.
   Python exceptions are `Except` values ("value-error", "assertion", "IndexError", "KeyError").
